@@ -171,8 +171,7 @@ def rule_regs_source(ctx, R="C04/regs-source"):
         ctx.check(ok, R, "ip=regs.rip", gb.where(0), "get_instruction_pointer() is regs.rip", "get_instruction_pointer() is %s" % [show(e) for e in outs])
 
 
-def rule_one_per_thread(ctx):
-    R = "C04/one-per-thread"
+def rule_one_per_thread(ctx, R="C04/one-per-thread"):
     b = ctx.body(R, "linux::sections::thread_list_stream::write")
     if b is None:
         return
@@ -366,10 +365,10 @@ MAPPING_LIST_MUTATORS = {
 }
 
 
-def rule_list_mutators(ctx, R, field, table, what, floor):
+def rule_list_mutators(ctx, R, field, table, what, floor, adt="ptrace_dumper::PtraceDumper"):
     """who-may-write rule for a list field of PtraceDumper"""
     def is_field(pl):
-        return any(x.get("k") == "field" and x.get("n") == field and (x.get("adt") or "").endswith("ptrace_dumper::PtraceDumper") for x in pl["proj"])
+        return any(x.get("k") == "field" and x.get("n") == field and (x.get("adt") or "").endswith(adt) for x in pl["proj"])
     found = {}
     for b in ctx.prog.bodies:
         for bi, blk in enumerate(b.blocks):
@@ -405,13 +404,13 @@ def rule_list_mutators(ctx, R, field, table, what, floor):
                                         how = (CalleeView(t2["callee"]).short or "?").split("::")[-1]
                     found.setdefault((b.short, how), b.where(bi, si))
     for k, where in sorted(found.items()):
-        if k[0].endswith("PtraceDumper::new_report_soft_errors") or k[0].endswith("PtraceDumper::new"):
+        if k[0].endswith("PtraceDumper::new_report_soft_errors") or k[0].endswith("PtraceDumper::new") or k[0].endswith("MinidumpWriter::new"):
             continue   # the constructor's empty list
         why = table.get(k)
-        ctx.check(why is not None, R, ("mutator", k[0].split("::")[-1], k[1]), where,
+        ctx.check(why is not None, R, ("mutator", "::".join(k[0].split("::{closure")[0].split("::")[-2:]), k[1]), where,
                   "%s changes %s through %s: %s" % (k[0].split("::")[-1], what, k[1], why),
-                  "%s changes PtraceDumper::%s through `%s`, which is not one of the reviewed writers (%s)" % (k[0], field, k[1], ", ".join("%s/%s" % (a.split("::")[-1], m) for a, m in table)))
-    ctx.floor(R, "reviewed writers of PtraceDumper::%s present" % field, len([k for k in found if k in table]), floor)
+                  "%s changes %s.%s through `%s`, which is not one of the reviewed writers (%s)" % (k[0], adt.split("::")[-1], field, k[1], ", ".join("%s/%s" % (a.split("::")[-1], m) for a, m in table)))
+    ctx.floor(R, "reviewed writers of %s present" % field, len([k for k in found if k in table]), floor)
 
 
 def rule_mapping_list_mutators(ctx, R="C13/mapping-list-writers"):
